@@ -14,6 +14,17 @@ CLAIMED = {
              'harness. Well-formed candidates assumed (start<=parse_start<=parse_end<=end<=len). Known finding kf_trailing_region.',
         technique='Coq proof (induction over the ParseToken forest invariant) + extracted-model correspondence',
         design='5/C16'),
+    'C08': dict(
+        text='Theorems over ALL token trees x all option sets about a Gallina model of HtmlRenderer: tags balanced, every tag/attribute in the '
+             'fixed vocabulary, attribute values free of quotes and angle brackets, text escaped, raw items only from HtmlBlock/HtmlSpan; the '
+             'escape chain, URL safe set and the escaping at each template hole are regenerated from html_renderer.py on every run and enter the '
+             'theorems as reflective side conditions; model tied to the code by running the extracted model and the real renderer on parsed and '
+             'on loaded hostile trees and on every code point.',
+        note='Trusted: Coq kernel, extraction, translator gen_escapes.py (Python ast), hand-written structural model of the templates '
+             '(correspondence-checked), tree dumper/loader. Hypothesis wf_attrs (heading level 1..6) is monitored on real trees. '
+             'String-level lexing of the serialised items is checked by the extracted lexer on real output, not yet proved.',
+        technique='Coq proof (induction over token trees; reflective side conditions on regenerated escape data) + extracted-model correspondence',
+        design='5/C08'),
 }
 
 NOT_YET = {}
